@@ -251,6 +251,7 @@ def obs_outline(c, m, om):
                     problems.append("no static oracle drawing for %s source %d" % (g["name"], k))
             at.append(a)
         glyphs.append({"name": g["name"], "kind": kind, "comps": comps,
+                       "nondense": sum(1 for t in o.get("tuples", []) if not t["dense"]),
                        "tuples": [t["tents"] for t in o.get("tuples", [])], "pred": g.get("regions") or [],
                        "draws": draws, "at": at})
     rec = {"id": c["id"], "check": "outline", "scale": m["scale"], "locs": m["locs"], "glyphs": glyphs}
@@ -521,6 +522,15 @@ def fixtures_check(ctx, pid, check, only=None):
     sections = ["outline", "advance", "mvar", "defaults"]
     mreqs, live = [], []
     for job in jobs:
+        vr = res.get(job["tag"]) or {}
+        statics_ok = all((res.get("%s#%d" % (job["tag"], k)) or {}).get("outcome") == "ok" for k in range(len(job["masters"])))
+        if vr.get("outcome") == "panic" or (vr.get("outcome") == "error" and "panicked" in vr.get("message", "")):
+            if statics_ok:
+                # every master compiles on its own, the variable build of the same masters panics
+                ctx.violation("fixture-panic:%s:%s" % (job["rel"], re.sub(r"[0-9]+", "#", vr.get("message", ""))[:80]),
+                              "fixture %s: every master compiles as a static font but the variable build panics: %s" % (
+                                  job["rel"], vr.get("message", "")[:400]), {"fixture": job["rel"]})
+            continue
         if (res.get(job["tag"]) or {}).get("outcome") != "ok":
             common.log("fixture %s does not compile as a variable font (%s): not a subject of this property" % (
                 job["rel"], (res.get(job["tag"]) or {}).get("message", "")[:100]))
